@@ -138,6 +138,7 @@ PROPS = {
             "ThreadPark is replaced by the controller's virtual token in det mode; a time-out is a schedule choice (only while the token is not set)",
             "crossbeam SegQueue (the condvar's waiter queue) and may_queue::mpsc::Queue (the mutex's) are atomic FIFOs at this layer",
             "Condvar theorems are over the atomic Mutex spec (C05); the replay runs the Condvar model in lock-step with the C05 Mutex model and checks the spec bit at every lock/unlock boundary",
+            "the condvar scenarios' occupancy counter is a hooked atomic constructed in the scenario file (its events are named `?.L<line>`, listed under unresolved_sites, and skipped by the model): it only puts schedule points inside the critical sections",
             "Barrier / WaitGroup models are the programs of barrier.rs / wait_group.rs over the Mutex and Condvar SPECS (locked regions atomic, notify_all = epoch); their replay compares the API boundary only (call/ret, leader flags, return order) plus the arrival's lock grant; the internals are tied by the condvar family",
         ],
         assumptions=[
